@@ -2,9 +2,9 @@ package main
 
 import (
 	"flag"
-	"runtime/pprof"
 	"fmt"
 	"os"
+	"runtime/pprof"
 	"sort"
 	"strconv"
 	"strings"
